@@ -201,3 +201,16 @@ def run_file(item):
     o = observe(r["text"], "string")
     a = {"kind": "file", "name": r["name"], "text": r["text"][:200], "entry": "string"}
     return {"id": rid, "item": a, "init": {"x": 0}, "steps": [{"a": a, "out": "ok", "post": o}]}
+
+
+def on_hang(item, fname):
+    """the worker had to be killed on this row (harness/pool.py): the call did not return; a regular expression that backtracks
+    for ever is one C call that no signal handler interrupts, so the SIGALRM guard above never fires for it"""
+    global observe
+    real = observe
+    observe = lambda text, entry, **kw: {"parsed": "TIMEOUT", "class": "", "ser": "", "reparse": "", "reser": "", "cpu_ms": 10 ** 6, "n": len(text),
+                                         "where": "no return: worker killed"}
+    try:
+        return globals()[fname](item)
+    finally:
+        observe = real
